@@ -56,6 +56,32 @@ var codeForwarderD = asm(
 	"RETURNDATASIZE", "PUSH1", 0, "REVERT",
 	"@ok", "JUMPDEST", "RETURNDATASIZE", "PUSH1", 0, "RETURN")
 
+// codeRunnerLog: the script interpreter of E-calltree, but after every call it emits LOG1(topic = success flag,
+// data = the call's return data), so that the values nested calls returned can be read from the receipt.
+var codeRunnerLog = asm(
+	"PUSH1", 0,
+	"@loop", "JUMPDEST",
+	"DUP1", "CALLDATASIZE", "GT", "ISZERO", "PUSH@", "ret", "JUMPI",
+	"DUP1", "CALLDATALOAD", "PUSH1", 0xf8, "SHR",
+	"DUP1", "PUSH1", 2, "EQ", "PUSH@", "ret", "JUMPI",
+	"DUP1", "PUSH1", 3, "EQ", "PUSH@", "rev", "JUMPI",
+	"POP",
+	"DUP1", "PUSH1", 1, "ADD", "CALLDATALOAD", "PUSH1", 0xf8, "SHR",
+	"DUP2", "PUSH1", 2, "ADD", "CALLDATALOAD", "PUSH1", 96, "SHR",
+	"DUP3", "PUSH1", 22, "ADD", "CALLDATALOAD", "PUSH1", 240, "SHR",
+	"DUP1", "DUP5", "PUSH1", 24, "ADD", "PUSH1", 0, "CALLDATACOPY",
+	"DUP3", "ISZERO", "PUSH@", "kcall", "JUMPI",
+	"DUP3", "PUSH1", 1, "EQ", "PUSH@", "kstatic", "JUMPI",
+	"PUSH1", 0, "PUSH1", 0, "DUP3", "PUSH1", 0, "DUP6", "GAS", "PUSH1", 1, "SHR", "DELEGATECALL", "PUSH@", "after", "JUMP",
+	"@kcall", "JUMPDEST", "PUSH1", 0, "PUSH1", 0, "DUP3", "PUSH1", 0, "PUSH1", 0, "DUP7", "GAS", "PUSH1", 1, "SHR", "CALL", "PUSH@", "after", "JUMP",
+	"@kstatic", "JUMPDEST", "PUSH1", 0, "PUSH1", 0, "DUP3", "PUSH1", 0, "DUP6", "GAS", "PUSH1", 1, "SHR", "STATICCALL",
+	"@after", "JUMPDEST",
+	"RETURNDATASIZE", "PUSH1", 0, "PUSH2", 0x0800, "RETURNDATACOPY",
+	"RETURNDATASIZE", "PUSH2", 0x0800, "LOG1",
+	"SWAP1", "POP", "SWAP1", "POP", "ADD", "PUSH1", 24, "ADD", "PUSH@", "loop", "JUMP",
+	"@ret", "JUMPDEST", "PUSH1", 0, "PUSH1", 0, "RETURN",
+	"@rev", "JUMPDEST", "PUSH1", 0, "PUSH1", 0, "REVERT")
+
 func packStk(name string, args ...any) []byte {
 	m := cpcabi.StakingCpcInfo.ABI.Methods[name]
 	bz, err := m.Inputs.Pack(args...)
@@ -174,10 +200,12 @@ func TestEngineStaking(t *testing.T) {
 	addrs[5] = c.deployRuntime("stk-fwd-call", codeForwarder)
 	addrs[6] = c.deployRuntime("stk-fwd-delegatecall", codeForwarderD)
 	addrs[7] = c.deployRuntime("stk-runner", codeRunner) // scripted: several precompile calls in ONE transaction
+	addrs[8] = c.deployRuntime("stk-runner-log", codeRunnerLog)
 	one := new(big.Int).Exp(big.NewInt(10), big.NewInt(18), nil)
 	mint(base, addrs[5].Bytes(), new(big.Int).Mul(one, big.NewInt(50)))
 	mint(base, addrs[6].Bytes(), new(big.Int).Mul(one, big.NewInt(50)))
 	mint(base, addrs[7].Bytes(), new(big.Int).Mul(one, big.NewInt(50)))
+	mint(base, addrs[8].Bytes(), new(big.Int).Mul(one, big.NewInt(50)))
 	vals, err := sk.GetAllValidators(base)
 	require.NoError(t, err)
 	sort.Slice(vals, func(i, j int) bool { return vals[i].OperatorAddress < vals[j].OperatorAddress })
@@ -926,6 +954,118 @@ func TestEngineStaking(t *testing.T) {
 			}
 			p.Emit(fmt.Sprintf("stk2 caller=7 ev1=%s ev2=%s", evs[0], evs[1]), fmt.Sprintf("res=%s logs=%s twin=%s", implRes, logs, twin))
 			p.Count("stk2:" + implRes)
+			writeA()
+		case k < 91: // views BEFORE and AFTER a state-changing call, all inside ONE transaction of a contract
+			self := 8
+			v := pickMine(self)
+			for v == 199 {
+				v = hx.Pick(r, valIDs)
+			}
+			if bk.GetBalance(base, addrs[self].Bytes(), bond).Amount.BigInt().Cmp(one) < 0 {
+				mint(base, addrs[self].Bytes(), new(big.Int).Mul(one, big.NewInt(20)))
+			}
+			amt := new(big.Int).Mul(new(big.Int).Div(one, big.NewInt(1000)), big.NewInt(int64(1+r.Intn(300))))
+			wkind := hx.Pick(r, []string{"delegate", "delegate", "withdrawall", "undelegate"})
+			var winput []byte
+			switch wkind {
+			case "delegate":
+				winput = packStk("delegate", common.BytesToAddress(valAddr[v]), amt)
+			case "undelegate":
+				amt = new(big.Int).Rsh(delegated(self, v), 1)
+				if amt.Sign() == 0 {
+					wkind, amt = "delegate", big.NewInt(12345)
+					winput = packStk("delegate", common.BytesToAddress(valAddr[v]), amt)
+				} else {
+					winput = packStk("undelegate", common.BytesToAddress(valAddr[v]), amt)
+				}
+			default:
+				winput = packStk("withdrawRewards")
+			}
+			// expected view values from the native queries: before = current state, after = the native message applied
+			nativeViews := func(ctx sdk.Context) [4]*big.Int {
+				q, _ := ctx.CacheContext()
+				var out [4]*big.Int
+				out[0] = big.NewInt(0)
+				if resp, err := distkeeper.NewQuerier(dk).DelegationTotalRewards(q, &disttypes.QueryDelegationTotalRewardsRequest{DelegatorAddress: accStr(self)}); err == nil {
+					out[0] = resp.Total.AmountOf(bond).TruncateInt().BigInt()
+				}
+				out[1] = new(big.Int).Add(out[0], bk.GetBalance(ctx, addrs[self].Bytes(), bond).Amount.BigInt())
+				out[2] = big.NewInt(0)
+				if resp, err := stakingkeeper.NewQuerier(sk).Delegation(q, &stakingtypes.QueryDelegationRequest{DelegatorAddr: accStr(self), ValidatorAddr: valStr(v)}); err == nil {
+					out[2] = resp.DelegationResponse.Balance.Amount.BigInt()
+				}
+				bonded, _ := sk.GetDelegatorBonded(q, addrs[self].Bytes())
+				out[3] = bonded.BigInt()
+				return out
+			}
+			ctxA, writeA := base.CacheContext()
+			ctxB, _ := base.CacheContext()
+			ctxA = ctxA.WithEventManager(sdk.NewEventManager())
+			cb := ctxB.WithEventManager(sdk.NewEventManager())
+			before := nativeViews(base)
+			var nerr error
+			anyW := true
+			switch wkind {
+			case "delegate":
+				_, nerr = stakingkeeper.NewMsgServerImpl(sk).Delegate(cb, stakingtypes.NewMsgDelegate(accStr(self), valStr(v), coin(amt)))
+			case "undelegate":
+				_, nerr = stakingkeeper.NewMsgServerImpl(sk).Undelegate(cb, stakingtypes.NewMsgUndelegate(accStr(self), valStr(v), coin(amt)))
+			default:
+				anyW, nerr = nativeWithdrawAll(cb, self)
+			}
+			wOK := nerr == nil && anyW
+			after := before
+			if wOK {
+				after = nativeViews(ctxB)
+			}
+			selfA := addrs[self]
+			vA := common.BytesToAddress(valAddr[v])
+			var script []byte
+			script = append(script, record(1, stk, packStk("rewardsOf", selfA))...)
+			script = append(script, record(1, stk, packStk("balanceOf", selfA))...)
+			script = append(script, record(0, stk, winput)...)
+			script = append(script, record(1, stk, packStk("rewardsOf", selfA))...)
+			script = append(script, record(1, stk, packStk("balanceOf", selfA))...)
+			script = append(script, record(1, stk, packStk("delegationOf", selfA, vA))...)
+			script = append(script, record(1, stk, packStk("totalDelegationOf", selfA))...)
+			script = append(script, 2)
+			res, err := evmCall(ctxA, addrs[1], addrs[self], script)
+			if err != nil || res.VmError != "" {
+				p.Count("stkv:tx-failed")
+				continue
+			}
+			rc := &ethtypes.Receipt{}
+			require.NoError(t, rc.UnmarshalBinary(res.MarshalledReceipt))
+			var flags []int
+			var vals []*big.Int
+			for _, lg := range rc.Logs {
+				if lg.Address == addrs[self] && len(lg.Topics) == 1 {
+					flags = append(flags, int(lg.Topics[0].Big().Int64()))
+					vals = append(vals, new(big.Int).SetBytes(lg.Data))
+				}
+			}
+			if len(flags) != 7 {
+				p.Oracle("C11-view-differs-from-query", "in-transaction views: expected 7 call records, got %d", len(flags))
+				continue
+			}
+			exp := []*big.Int{before[0], before[1], nil, after[0], after[1], after[2], after[3]}
+			names := []string{"rewardsOf(before)", "balanceOf(before)", "write", "rewardsOf(after)", "balanceOf(after)", "delegationOf(after)", "totalDelegationOf(after)"}
+			if (flags[2] == 1) != wOK {
+				p.Oracle("C11-result-differs-from-native", "in one transaction: %s by contract 8 success=%d, native ok=%v (%v)", wkind, flags[2], wOK, nerr)
+			}
+			for j := range exp {
+				if exp[j] == nil {
+					continue
+				}
+				lo, hi := exp[j], exp[j]
+				if j == 6 { // the precompile truncates the sum, the queries truncate each term
+					hi = new(big.Int).Add(exp[j], big.NewInt(int64(len(valIDs))))
+				}
+				if flags[j] != 1 || vals[j].Cmp(lo) < 0 || vals[j].Cmp(hi) > 0 {
+					p.Oracle("C11-view-differs-from-query", "inside one transaction of contract 8 around %s (native ok=%v): %s returned %s (call ok=%d), the native query gives %s", wkind, wOK, names[j], vals[j], flags[j], exp[j])
+				}
+			}
+			p.Count(fmt.Sprintf("stkv:%s:write-ok=%v", wkind, wOK))
 			writeA()
 		case k < 92: // native staking by somebody (interleaving)
 			who := hx.Pick(r, []int{1, 2, 3})
